@@ -249,7 +249,7 @@ PROPS["C01"] = dict(
 PROPS["C12"] = dict(
     level="exploration",
     default_binary="c12",
-    binaries={"c12": dict(src=["props/c12.cpp"], variants=["dflt"])},
+    binaries={"c12": dict(src=["props/c12.cpp"], variants=["dflt", "extra"])},
     stages=[
         stage("corpus"),
         stage("lengths"),
